@@ -482,9 +482,13 @@ impl Retrier {
             if !receipt.verify(&tower_id) {
                 return Err(Error::permanent(RetryError::Subscription("Registration receipt contains bad signature. Are you using the right tower_id?".to_owned(), true)));
             }
-            self.wt_client
-                .lock()
-                .unwrap()
+            let mut wt_client = self.wt_client.lock().unwrap();
+            // The tower may have been abandoned while we were waiting for its answer. Recording the registration
+            // would bring it back.
+            if !wt_client.towers.contains_key(&tower_id) {
+                return Err(Error::permanent(RetryError::Abandoned));
+            }
+            wt_client
                 .add_update_tower(tower_id, net_addr.net_addr(), &receipt)
                 .map_err(|e| {
                     let reason = if e.is_expiry() {
